@@ -231,6 +231,104 @@ def _store_setup(ex: Explorer) -> None:
     ex.obligation_filter = lambda name: name.startswith(("I-response-column", "I-row-has"))  # type: ignore[attr-defined]
 
 
+HISTORIES: dict[str, list[tuple[str, str | None]]] = {
+    "same request, different answers around a silence": [
+        ("22f190", "62f19041414141"), ("31010203", None), ("22f190", "62f19042424242"),
+        ("22f190", "62f19043434343")],
+    "unlock in a non-default session, re-enter the same session, then ask": [
+        ("1003", "5003003201f4"), ("2701", "6701a1b2"), ("2702a1b2", "6702"),
+        ("22f190", "62f19055"), ("1003", "5003003201f4"), ("22f190", "7f2233")],
+    "replies the client flags as mismatching": [
+        ("22f190", "62f18a56494e"), ("2ef19001", "7f2231"), ("22f190", "62f19001")],
+    "two sessions with different answers": [
+        ("22f190", "62f19001"), ("1002", "5002003201f4"), ("22f190", "62f19002"),
+        ("1001", "5001003201f4"), ("22f190", "62f19001")],
+}
+
+
+def native_record_replay() -> tuple[bool, str]:
+    """Record scripted histories through the real ECU client and DBHandler into sqlite, replay
+    them through DBUDSServer / UDSServerTransport.handle_request, compare reply by reply."""
+    import asyncio
+    import logging
+    import shutil
+    import tempfile
+    from datetime import datetime
+    from pathlib import Path
+    logging.disable(logging.CRITICAL)
+    import gallia.command  # noqa: F401
+    from gallia.command.config import GalliaBaseModel
+    from gallia.db.handler import DBHandler
+    from gallia.services.uds import ecu as E
+    from gallia.services.uds import server as SV
+    from gallia.services.uds.core import service as S
+    from gallia.transports.base import BaseTransport, TargetURI
+
+    class Scripted(BaseTransport, scheme="c12-script"):
+        def __init__(self, hist: list[tuple[str, str | None]]) -> None:
+            self.mutex = asyncio.Lock()
+            self.is_closed = False
+            self.hist = list(hist)
+
+        @classmethod
+        async def connect(cls, target: Any, timeout: float | None = None) -> Any:
+            raise NotImplementedError
+
+        async def close(self) -> None:
+            pass
+
+        async def read(self, timeout: float | None = None, tags: Any = None) -> bytes:
+            raise TimeoutError
+
+        async def write(self, data: bytes, timeout: float | None = None, tags: Any = None) -> int:
+            return len(data)
+
+        async def request_unsafe(self, data: bytes, timeout: float | None = None,
+                                 tags: Any = None) -> bytes:
+            q, r = self.hist.pop(0)
+            if r is None:
+                raise TimeoutError("scripted silence")
+            return bytes.fromhex(r)
+
+    async def one(name: str, hist: list[tuple[str, str | None]], path: Path) -> str | None:
+        db = DBHandler(path)
+        await db.connect()
+        await db.insert_run_meta("c12", GalliaBaseModel(), datetime.now().astimezone(), None)
+        await db.insert_scan_run("c12-script://ecu")
+        ecu = E.ECU(Scripted(hist), timeout=0.05, max_retry=0)
+        ecu.db_handler = db
+        for q, _ in hist:
+            try:
+                await ecu.request(S.UDSRequest.parse_dynamic(bytes.fromhex(q)))
+            except Exception:  # noqa: BLE001
+                pass
+        await db.disconnect()
+        srv = SV.DBUDSServer(path, None, None)
+        await srv.setup()
+        tr = SV.UDSServerTransport(srv, TargetURI("tcp://127.0.0.1:1"))
+        try:
+            for i, (q, r) in enumerate(hist):
+                got, _ = await tr.handle_request(bytes.fromhex(q))
+                if (got.hex() if got is not None else None) != r:
+                    return (f"history '{name}', step {i}: request {q}: the ECU answered {r}, "
+                            f"the replay answers {got.hex() if got is not None else None}")
+        finally:
+            await srv.teardown()
+        return None
+
+    async def go() -> tuple[bool, str]:
+        tmp = Path(tempfile.mkdtemp(prefix="c12_"))
+        try:
+            for i, (name, hist) in enumerate(HISTORIES.items()):
+                bad = await one(name, hist, tmp / f"h{i}.sqlite")
+                if bad:
+                    return True, bad
+        finally:
+            shutil.rmtree(tmp, ignore_errors=True)
+        return False, f"{len(HISTORIES)} recorded histories are replayed reply by reply"
+    return asyncio.run(go())
+
+
 def native_replay(unit: str, obligation: str, model: dict) -> tuple[bool, str]:
     import asyncio
     import gallia.command  # noqa: F401
@@ -241,8 +339,8 @@ def native_replay(unit: str, obligation: str, model: dict) -> tuple[bool, str]:
     if unit.startswith("store/"):
         from . import c11
         return c11.native_replay(unit, obligation, model)
-    if "ReadDataByIdentifierResponse" not in unit:
-        return False, "no native scenario for this obligation"
+    if "ReadDataByIdentifierResponse" not in unit or "0xF186" not in obligation:
+        return native_record_replay()
 
     class Srv(SV.UDSServer):
         @property
